@@ -119,6 +119,10 @@ def generate(seed: int, tier: str = "quick") -> dict:
 
 
 def _finish(seed, tier, world, strategies, program, ns, threads, noisy, failing, rs, donor=None):
+    rt = R.sub(seed, "trigger_in_constructor")
+    for spec in strategies:
+        if rt.random() < 0.3:
+            spec["trigger_in_constructor"] = True  # its trigger is attached when the strategy object is built
     program.sort(key=lambda o: (o["s"], o["bar"], PHASE_ORDER.index(o["phase"])))
     order = list(range(ns))
     if rs.random() < 0.6:
@@ -430,10 +434,14 @@ class _Facade:
 class ScriptStrategy(Strategy):
     """Executes its little program inside the real bar loop and, in finalize(), writes what it saw to self.outdir."""
 
-    def __init__(self, name, program, world, mdata, tokens0, outdir):
+    def __init__(self, name, program, world, mdata, tokens0, outdir, trigger_in_constructor=False):
         super().__init__()
         self.name = name
         self.program = program
+        self._early_trigger = bool(trigger_in_constructor) and any(o["phase"] == "trigger" for o in program)
+        if self._early_trigger:
+            # the strategy attaches its trigger when it is built, not in initialize() (bound methods: the object stays picklable)
+            self.triggers.append(CustomizedTrigger(self._trig_when, self._trig_do))
         self.world = world
         self.mdata = mdata
         self.tokens0 = tokens0
@@ -453,9 +461,15 @@ class ScriptStrategy(Strategy):
             "columns": {n: [str(c) for c in m.data.columns] for n, m in self.fs.markets.items()},
             "wallet": {t.name: a.balance for t, a in self.broker.assets.items()},
         }
-        if any(o["phase"] == "trigger" for o in self.program):
+        if any(o["phase"] == "trigger" for o in self.program) and not self._early_trigger:
             self.triggers.append(CustomizedTrigger(lambda s: True, lambda snap: self._run(snap.row_id, "trigger", snap)))
         self._run(-1, "initialize", None)
+
+    def _trig_when(self, snapshot):
+        return True
+
+    def _trig_do(self, snapshot):
+        self._run(snapshot.row_id, "trigger", snapshot)
 
     def before_bar(self, snapshot):
         self._run(snapshot.row_id, "before_bar", snapshot)
@@ -632,7 +646,8 @@ def _members(scenario, idxs, outdir, frames):
     for i in idxs:
         spec = scenario["strategies"][i]
         prog = [{k: v for k, v in o.items() if k != "s"} for o in scenario.get("program", []) if o.get("s") == i]
-        out.append(ScriptStrategy(spec["name"], prog, scenario["world"], frames["mdata"], frames["tokens"], outdir))
+        out.append(ScriptStrategy(spec["name"], prog, scenario["world"], frames["mdata"], frames["tokens"], outdir,
+                                  trigger_in_constructor=bool(spec.get("trigger_in_constructor"))))
     return out
 
 
